@@ -161,7 +161,7 @@ H_HIST = Harness(
         "quick": {"ranges": {"nops": (0, 2)}, "fixed": {"o3": 0, "t3": 0, "o4": 0, "t4": 0}, "partition": ["kind", "beh"], "timeout": 300,
                   "filter": (lambda f: not (f["beh"] in (3, 6) and f["kind"] in (0, 3))),
                   "twin_fixed": {"kind": 1, "beh": 1}},
-        "thorough": {"partition": ["kind", "beh", "nops", "o1"], "timeout": 1500, "filter": (lambda f: not (f["beh"] in (3, 6) and f["kind"] in (0, 3))), "twin_fixed": {"kind": 1, "beh": 1, "nops": 2, "o1": 1}},
+        "thorough": {"ranges": {"nops": (0, 3)}, "fixed": {"o4": 0, "t4": 0}, "partition": ["kind", "beh", "nops", "o1"], "timeout": 1500, "filter": (lambda f: not (f["beh"] in (3, 6) and f["kind"] in (0, 3))), "twin_fixed": {"kind": 1, "beh": 1, "nops": 2, "o1": 1}},
     },
     functions=_FUNCS,
 )
